@@ -21,31 +21,35 @@ import (
 	"math/rand"
 	"strings"
 	"testing"
+	"time"
 
 	"verif.local/kit"
 )
 
 const c03fpDefaultLimit = 4 << 20
 
-// c03fpStreamUnderPoolTimeout: generate pools that have a `timeout` AND stream the response
-// (serverMaxBodySize -1)?  Off: on the unchanged tree ServerPool.handle cancels the
-// timeout context when the handler returns (`defer cancel()`), i.e. right after the
-// response head arrived, which ends a streamed body after whatever the transport had
-// buffered (about 4 KB): the client gets `Content-Length: 65536` and 3939 bytes, or a 200
-// with `Content-Length: 0` for a 5000-byte chunked body.  That is a defect of its own
-// (reported to the coordinator); with the switch on, every response-side refutation of
-// such a configuration carries the input class failure-path(stream-response-under-pool-timeout).
-const c03fpStreamUnderPoolTimeout = true
+// Pools that have a `timeout` AND stream the response (serverMaxBodySize -1) are a
+// configuration kind of their own ("stream-under-pool-timeout"): the timeout is long
+// (300-800 ms) and the backend honest and fast, so the deadline has no business firing; an
+// exchange that nevertheless lasted as long as the timeout (client clock, from the first
+// request byte to the last response byte - the deadline cannot have been set earlier than
+// the former) is not judged.  Before commit 4bdcc7b of /repo ServerPool.handle cancelled
+// the timeout context when the handler returned (`defer cancel()`), i.e. right after the
+// response head had arrived, which ended a streamed body after whatever the transport had
+// buffered (about 4 KB): `Content-Length: 65536` followed by 3939 bytes, or a 200 with
+// `Content-Length: 0` for a 5000-byte chunked body.  Response-side refutations of this
+// kind carry the input class failure-path(stream-response-under-pool-timeout).
+const c03fpStreamTimeoutKind = "stream-under-pool-timeout"
 
 var c03fpAllClasses = []string{"oversize-declared", "oversize-chunked", "short-declared", "short-chunked", "drop", "reset", "drop-in-headers",
-	"hang-until-pool-timeout", "failure-code", "backend-unreachable"}
+	"hang-until-pool-timeout", "failure-code", "backend-unreachable", "streamed-honest"}
 
 // c03fpCfg: the gateway configurations of the failure-path part.
 func c03fpCfg(i int, rng *rand.Rand) (cfg *e2eCfg, kind string) {
 	cfg = &e2eCfg{}
 	l := []int64{1000, 4096, 65536, int64(1500 + rng.Intn(68000))}[rng.Intn(4)]
 	// (i/2: both shards of the quick tier get every kind)
-	switch (i / 2) % 6 {
+	switch (i / 2) % 7 {
 	case 0:
 		kind, cfg.PoolServerMax = "buffered-pool-limit", l
 	case 1:
@@ -67,8 +71,18 @@ func c03fpCfg(i int, rng *rand.Rand) (cfg *e2eCfg, kind string) {
 		if rng.Intn(3) == 0 {
 			cfg.PoolServerMax = -1
 		}
+	case 6:
+		kind = c03fpStreamTimeoutKind
+		switch rng.Intn(3) {
+		case 0:
+			cfg.PoolServerMax = -1
+		case 1:
+			cfg.ProxyServerMax = -1
+		default:
+			cfg.PoolServerMax, cfg.ProxyServerMax = -1, l
+		}
 	}
-	switch (i / 12) % 3 {
+	switch (i / 14) % 3 {
 	case 1:
 		cfg.HostNameServer = kind != "dead-server"
 	case 2:
@@ -77,15 +91,22 @@ func c03fpCfg(i int, rng *rand.Rand) (cfg *e2eCfg, kind string) {
 	if rng.Intn(2) == 0 {
 		cfg.FailureCodes = []int{500, 503}
 	}
-	if (i/2)%5 == 1 || (i/2)%5 == 3 {
+	if lim, _ := c03fpLimit(cfg); ((i/2)%5 == 1 || (i/2)%5 == 3) && (lim >= 0 || kind == "dead-server") {
+		// (short: the deadline is meant to fire; buffered responses only, where a deadline
+		// that fires while the body is being read still leaves the gateway free to answer)
 		cfg.PoolTimeoutMs = 25 + rng.Intn(30)
-		if lim, _ := c03fpLimit(cfg); lim < 0 && kind != "dead-server" && !c03fpStreamUnderPoolTimeout {
-			cfg.PoolTimeoutMs = 0
-		}
 	}
 	if rng.Intn(4) == 0 {
 		m := []int{0, 1024}[rng.Intn(2)]
 		cfg.Compression = &m
+	}
+	if kind == c03fpStreamTimeoutKind {
+		cfg.PoolTimeoutMs = 300 + rng.Intn(501)
+		cfg.Compression = nil
+		if i%2 == 0 { // (i%2 is the shard of the quick tier: both variants in every run)
+			m := []int{0, 1024}[rng.Intn(2)]
+			cfg.Compression = &m
+		}
 	}
 	if rng.Intn(6) == 0 {
 		cfg.Retry = &e2eRetry{MaxAttempts: 2, WaitMs: 3 + rng.Intn(5), Random: 0.5}
@@ -197,6 +218,17 @@ func c03fpShape(cfg *e2eCfg, rng *rand.Rand, ex *c03Ex, class string) {
 		setBody(n)
 		sc.Mode = "short-chunked"
 		sc.SendN = []int{0, rng.Intn(n), n - 1, n}[rng.Intn(4)]
+	case "streamed-honest":
+		// an honest body, long enough that a stream cut off behind the transport's first
+		// buffer-full shows
+		success()
+		for _, fc := range cfg.FailureCodes { // (a failure-coded response is the class failure-code, and is retried under a Retry policy)
+			if sc.Status == fc {
+				sc.Status = 200
+			}
+		}
+		setBody([]int{3000 + rng.Intn(6000), 20000 + rng.Intn(10000), 65536, 100000 + rng.Intn(100001)}[rng.Intn(4)])
+		sc.Mode = []string{"cl", "chunked"}[rng.Intn(2)]
 	case "drop", "reset", "drop-in-headers":
 		success()
 		sc.Mode = class
@@ -241,9 +273,9 @@ func TestVerif_C03_FailurePath(t *testing.T) {
 	if e2eNotReplayed(r) {
 		return
 	}
-	r.Rule("failure-path responses: gateway configurations {serverMaxBodySize positive (1000, 4096, 65536, random 1500..70000) at pool level, at proxy level, at both levels, unset (4 MiB), -1 (stream)} x {IP, host-name, keepHost server} x failureCodes [500,503] or none x pool timeout 25-55 ms or none x proxy compression none/0/1024 x Retry policy (2 attempts) or none x route cache, and a pool whose only server refuses connections. 10 exchanges per configuration on one kept-alive raw connection, requests as in the exchange part (never HEAD): backend responses of limit+1, limit+k, 2*limit, 4*limit bytes, length-declared or chunked; length-declared bodies of which 0 / some / all but one bytes are sent before the connection is closed; chunked bodies cut off after 0 / some / all bytes without the terminating chunk (the last two kinds in buffered mode only: in stream mode the status line is on the wire before the gateway can know); connection closed (FIN) or reset (RST) after the request was read, or in the middle of the response head; a backend that stays silent until the pool's timeout has fired; responses whose status is listed in failureCodes; every third exchange an ordinary one, checked in full. distinct = (class, response mode, limit source, compression, scripted status class/mode, request framing, answered status, client-side framing)")
+	r.Rule("failure-path responses: gateway configurations {serverMaxBodySize positive (1000, 4096, 65536, random 1500..70000) at pool level, at proxy level, at both levels, unset (4 MiB), -1 (stream)} x {IP, host-name, keepHost server} x failureCodes [500,503] or none x pool timeout 25-55 ms or none (buffered responses), 300-800 ms with streamed responses (every 7th pair of configurations: honest bodies of 3-200 KB, length-declared and chunked alternating, proxy compression on in one shard and off in the other, plus drop/reset/failure-code and ordinary exchanges) x proxy compression none/0/1024 x Retry policy (2 attempts) or none x route cache, and a pool whose only server refuses connections. 10 exchanges per configuration on one kept-alive raw connection, requests as in the exchange part (never HEAD): backend responses of limit+1, limit+k, 2*limit, 4*limit bytes, length-declared or chunked; length-declared bodies of which 0 / some / all but one bytes are sent before the connection is closed; chunked bodies cut off after 0 / some / all bytes without the terminating chunk (the last two kinds in buffered mode only: in stream mode the status line is on the wire before the gateway can know); connection closed (FIN) or reset (RST) after the request was read, or in the middle of the response head; a backend that stays silent until the pool's timeout has fired; responses whose status is listed in failureCodes; every third exchange an ordinary one, checked in full. distinct = (class, response mode, limit source, compression, scripted status class/mode, request framing, answered status, client-side framing)")
 	r.Assume("on a failure path the status the gateway answers with is not decided here (C07 decides it): demanded are well-framed bytes on the client socket (also: nothing behind the response on a kept-alive connection), the faithful forwarding of the request whenever the backend saw it, and for a 2xx answer the backend's status, end-to-end headers and complete body; a 2xx answer to an exchange whose backend never produced a response head (drop, reset, hang, refused connection) is recorded in the coverage signature but not decided; a response whose status is listed in failureCodes is demanded to be relayed unchanged (status, headers, body)")
-	r.Assume("a pool timeout is not combined with a streamed response (serverMaxBodySize -1): see c03fpStreamUnderPoolTimeout")
+	r.Assume("a pool timeout combined with a streamed response (serverMaxBodySize -1) is a configuration kind of its own: timeout 300-800 ms, honest and fast backend, bodies of 3-200 KB, length-declared and chunked, with and without proxy compression; an exchange is judged (in full: status, headers, body, framing) only if it was over on the client side before the timeout had passed since the client began to write the request - the deadline cannot have fired then; otherwise it is not judged at all (a deadline that fires inside a streamed body can only cut it off). The short timeouts (25-55 ms) that are meant to fire are combined with buffered responses only")
 	r.Assume("with a pool timeout configured, neither the status nor the request body of any exchange is decided (the timeout may fire on a loaded machine): framing, headers and 2xx faithfulness only")
 	be, err := e2eNewBackend()
 	if err != nil {
@@ -252,7 +284,7 @@ func TestVerif_C03_FailurePath(t *testing.T) {
 	}
 	defer be.Close()
 	dd := &c03Dedupe{}
-	n := r.N(24, 720)
+	n := r.N(28, 728)
 	for i := 0; i < n; i++ {
 		if !r.Mine(i) {
 			continue
@@ -274,6 +306,8 @@ func TestVerif_C03_FailurePath(t *testing.T) {
 		switch {
 		case kind == "dead-server":
 			classes = []string{"backend-unreachable"}
+		case kind == c03fpStreamTimeoutKind:
+			classes = []string{"streamed-honest", "streamed-honest", "streamed-honest", "streamed-honest", "drop", "reset", "drop-in-headers"}
 		case limit < 0:
 			classes = []string{"drop", "reset", "drop-in-headers"}
 		default:
@@ -285,7 +319,9 @@ func TestVerif_C03_FailurePath(t *testing.T) {
 		}
 		var forced []string
 		if kind != "dead-server" {
-			if cfg.PoolTimeoutMs > 0 {
+			if kind == c03fpStreamTimeoutKind {
+				forced = append(forced, "streamed-honest", "streamed-honest")
+			} else if cfg.PoolTimeoutMs > 0 {
 				forced = append(forced, "hang-until-pool-timeout")
 			}
 			if len(cfg.FailureCodes) > 0 {
@@ -299,6 +335,7 @@ func TestVerif_C03_FailurePath(t *testing.T) {
 		var plan []planned
 		// a 4 MiB response is costly: at most one per default-limit configuration, in half of them
 		bigDone := limit == c03fpDefaultLimit && rng.Intn(2) == 0
+		streamed := 0
 		for k := 0; k < perCase; k++ {
 			class := "control"
 			switch {
@@ -318,6 +355,10 @@ func TestVerif_C03_FailurePath(t *testing.T) {
 			}
 			ex := c03Gen(cfg, rng, fmt.Sprintf("c03f-%d-%d-%d", r.Seed(), i, k), k == perCase-1)
 			c03fpShape(cfg, rng, ex, class)
+			if class == "streamed-honest" {
+				ex.Script.Mode = []string{"cl", "chunked"}[streamed%2] // (both framings in every such configuration)
+				streamed++
+			}
 			plan = append(plan, planned{class, ex})
 		}
 		r.Case(i, map[string]interface{}{"cfg": cfg, "kind": kind, "plan": plan})
@@ -333,7 +374,9 @@ func TestVerif_C03_FailurePath(t *testing.T) {
 			class, ex := p.Class, p.Ex
 			sc := ex.Script
 			be.Script(ex.ID, &sc)
+			began := time.Now()
 			res := cl.Do(&ex.Req, func() bool { return be.Contacted(ex.ID) })
+			elapsed := time.Since(began)
 			seen := be.Take(ex.ID)
 			r.Eval(1)
 			finds, _, inc := c03Check(cfg, ex, res, seen)
@@ -351,6 +394,18 @@ func TestVerif_C03_FailurePath(t *testing.T) {
 			}
 			resp := res.Resp
 			full := class == "control" && cfg.PoolTimeoutMs == 0
+			// streamed response under a (long) pool timeout: the deadline is set when the proxy
+			// starts on the request, i.e. not before the client began to write it; an exchange
+			// that was over on the client side before `timeout` had passed was not touched by it
+			// and is judged in full (honest exchanges) - any other is not judged at all, because
+			// a deadline that fires in the middle of a streamed body can only cut it off
+			streamTimeout := kind == c03fpStreamTimeoutKind
+			beforeDeadline := elapsed < time.Duration(cfg.PoolTimeoutMs)*time.Millisecond
+			if streamTimeout && !beforeDeadline {
+				r.Count("failpath_streamed_response_pool_timeout_may_have_fired_not_judged", 1)
+				finds = nil
+			}
+			judgeAll := streamTimeout && beforeDeadline && (class == "control" || class == "streamed-honest" || class == "failure-code")
 			for _, f := range finds {
 				if full {
 					if f.Sig == "" {
@@ -359,24 +414,44 @@ func TestVerif_C03_FailurePath(t *testing.T) {
 					dd.record(r, f)
 					continue
 				}
-				if !c03fpKeep(cfg, class, f, resp.Status) {
+				if !judgeAll && !c03fpKeep(cfg, class, f, resp.Status) {
 					continue
+				}
+				reqSide := strings.HasPrefix(f.Check, "req-") || f.Check == "backend-not-contacted" || f.Check == "backend-contacted-more-than-once"
+				if judgeAll && f.Check == "backend-contacted-more-than-once" && cfg.Retry != nil && class == "failure-code" {
+					continue // (a failure-coded response is retried)
 				}
 				cname := class
 				if class == "control" {
 					cname = "ordinary-exchange-under-pool-timeout"
 				}
-				if limit < 0 && cfg.PoolTimeoutMs > 0 && kind != "dead-server" && !(strings.HasPrefix(f.Check, "req-") || f.Check == "backend-not-contacted") {
+				if streamTimeout {
 					cname = "stream-response-under-pool-timeout"
 				}
-				if f.Sig == "" || !(strings.HasPrefix(f.Check, "req-") || f.Check == "backend-not-contacted") {
+				if f.Sig == "" || !reqSide {
 					// (what the backend received does not depend on how it answers: the
 					// request-side signatures stay those of the exchange part)
 					f.Sig = "C03:" + f.Check + ":failure-path(" + cname + ")"
 				}
 				f.Detail["failurePathClass"] = class
 				f.Detail["configurationKind"] = kind
+				f.Detail["elapsedMs"] = elapsed.Milliseconds()
 				dd.record(r, f)
+			}
+			if judgeAll && class == "streamed-honest" && len(finds) == 0 && resp.FramingErr == "" && resp.Status == ex.Script.Status {
+				r.Count("failpath_streamed_response_under_pool_timeout_delivered_intact", 1)
+				r.Count("failpath_streamed_response_under_pool_timeout_delivered_intact_"+ex.Script.Mode, 1)
+				if cfg.Compression != nil {
+					r.Count("failpath_streamed_response_under_pool_timeout_delivered_intact_with_proxy_compression", 1)
+				} else {
+					r.Count("failpath_streamed_response_under_pool_timeout_delivered_intact_without_compression", 1)
+				}
+				if len(ex.Script.Body) >= 65536 {
+					r.Count("failpath_streamed_response_under_pool_timeout_delivered_intact_64k_or_more", 1)
+				}
+			}
+			if judgeAll && class == "control" && len(finds) == 0 && resp.FramingErr == "" {
+				r.Count("failpath_ordinary_exchange_streamed_under_pool_timeout_intact", 1)
 			}
 			// observations
 			r.Count("failpath_exchanges", 1)
@@ -422,4 +497,8 @@ func TestVerif_C03_FailurePath(t *testing.T) {
 	r.Require("failpath_ordinary_exchange_on_connection_that_saw_a_failure", 1)
 	r.Require("failpath_answer_5xx", 1)
 	r.Require("failpath_failure_code_relayed", 1)
+	for _, k := range []string{"", "_cl", "_chunked", "_with_proxy_compression", "_without_compression", "_64k_or_more"} {
+		r.Require("failpath_streamed_response_under_pool_timeout_delivered_intact"+k, 1)
+	}
+	r.Require("failpath_ordinary_exchange_streamed_under_pool_timeout_intact", 1)
 }
